@@ -198,6 +198,8 @@ def ev(e, env):
         return sum(ev(x, env) for x in e[1])
     if t == 'pymaxl':
         return max(ev(x, env) for x in e[1])
+    if t == 'fstr':
+        return ''.join(part if isinstance(part, str) else format(ev(part, env)) for part in e[1])
     if t == 'pybuiltin':
         vals = [ev(x, env) for x in e[3]]
         if e[2] == 'map':
